@@ -207,6 +207,13 @@ Json generate(const std::string& tier, uint64_t seed, uint64_t index) {
   return sc;
 }
 
+// messages name the file: make them independent of the per-process scratch directory
+void strip_scratch(ReadOutcome& o) {
+  const std::string dir = sim::scratch_dir();
+  size_t p;
+  while (!dir.empty() && (p = o.msg.find(dir)) != std::string::npos) o.msg.replace(p, dir.size(), "@/");
+}
+
 bool allowed_status(const std::string& s) {
   return s == "ok" || s == "ReadError" || s == "BinaryReadError" || s == "Error" || s == "UnsupportedError" ||
          s == "SystemError" || s == "bad_alloc";
@@ -279,8 +286,9 @@ sim::RunResult run(const Json& sc) {
     ReadOutcome a;
     SimRun sa = sim_session(nofaults, 200000, [&] { a = read_nl_string(bytes, file, ro); });
     if (sa.exited) { a.status = "simexit"; }
+    strip_scratch(a);
     fp = sim::fnv1a(a.outcome_key(), fp); fp = sim::fnv1a(&a.trace_hash, 8, fp); fp = sim::fnv1a(a.digest, fp);
-    ts = sim::fnv1a(hname + "=" + a.status + ":" + skeleton(a.msg.size() > file.size() && a.msg.compare(0, file.size(), file) == 0 ? a.msg.substr(file.size()) : a.msg), ts);
+    ts = sim::fnv1a(hname + "=" + a.status + ":" + skeleton(a.msg.compare(0, 6, "@/m.nl") == 0 ? a.msg.substr(6) : a.msg), ts);
     bump(st, "outcome." + a.status);
     if (sa.fired.count("ALLOC_CAP")) bump(st, "bad_alloc_by_cap");
     if (a.status == "ReadError" || a.status == "BinaryReadError") bump(st, a.located ? "rejected_with_located_error" : "rejected_unlocated");
@@ -296,7 +304,7 @@ sim::RunResult run(const Json& sc) {
     if (expect_valid) {
       bump(st, "valid_total");
       if (a.status == "ok") bump(st, "valid_accepted");
-      else v.set("VALID_REJECTED", hname + "/" + skeleton(a.msg.size() > file.size() ? a.msg.substr(file.size()) : a.msg, 50),
+      else v.set("VALID_REJECTED", hname + "/" + skeleton(a.msg.compare(0, 6, "@/m.nl") == 0 ? a.msg.substr(6) : a.msg, 50),
                  "generated valid " + fmtname + " file rejected by " + hname + " handler: " + a.status + ": " + a.msg);
     }
     if (path == "string") continue;
@@ -327,6 +335,7 @@ sim::RunResult run(const Json& sc) {
       }
     }
     if (sb.exited) b.status = "simexit";
+    strip_scratch(b);
     fp = sim::fnv1a(b.outcome_key(), fp); fp = sim::fnv1a(&b.trace_hash, 8, fp); fp = sim::fnv1a(&sb.hash, 8, fp);
     ts = sim::fnv1a(path + "=" + b.status, ts);
     bump(st, "outcome2." + b.status);
